@@ -184,6 +184,16 @@ func mergeStubs(a, b map[string]string) map[string]string {
 
 var defaultInit = []string{"errors", "io", "unicode/utf8", "unicode", "strconv", "bytes", "strings", "math", "sort", "encoding/binary", "io/fs", "context"}
 
+func presentInit(prog *ssa.Program) []string {
+	var out []string
+	for _, p := range defaultInit {
+		if prog.ImportedPackage(p) != nil {
+			out = append(out, p)
+		}
+	}
+	return out
+}
+
 type harnessOutcome struct {
 	Spec    HarnessSpec
 	Res     *interp.RunResult
@@ -290,7 +300,7 @@ func cmdCheck(args []string) {
 			}
 			cfg := &interp.Config{
 				Stubs:        mergeStubs(props.Stubs, h.Stubs),
-				Init:         append(append([]string{}, defaultInit...), props.Init...),
+				Init:         append(presentInit(prog), props.Init...),
 				AllowGo:      h.AllowGo,
 				ExpectPanics: h.ExpectPanics,
 				MapOrders:    h.MapOrders,
@@ -378,7 +388,10 @@ func printOutcome(ho harnessOutcome) {
 	for _, s := range r.Cuts {
 		fmt.Fprintf(os.Stderr, "   cut: %s\n", s)
 	}
-	for _, s := range r.Poisoned {
+	for k, s := range r.Poisoned {
+		if os.Getenv("GOSYM_SHOW_POISON") == "" || k > 40 {
+			break
+		}
 		if len(s) > 200 {
 			s = s[:200]
 		}
